@@ -122,6 +122,21 @@ func genVals(r *rand.Rand, types []int) []int {
 
 // ---- Go source of the scratch module -------------------------------------------------------
 
+// behavGeneric: the interface is declared `Store[T any]` and the driver instantiates it with Named; every
+// occurrence of Named in the signatures is written T in the source
+var reNamedWord = regexp.MustCompile(`\bNamed\b`)
+
+func behavSourceG(methods []BMethod, generic bool) string {
+	s := behavSource(methods)
+	if !generic {
+		return s
+	}
+	i := strings.Index(s, "type Store interface {")
+	head, body := s[:i], s[i:]
+	body = strings.Replace(body, "type Store interface {", "type Store[T any] interface {", 1)
+	return head + reNamedWord.ReplaceAllString(body, "T")
+}
+
 func behavSource(methods []BMethod) string {
 	var b strings.Builder
 	b.WriteString("package store\n\nimport \"errors\"\n\ntype Named int\n\ntype Iface interface{ M() }\n\ntype implA struct{}\n\nfunc (implA) M() {}\n\ntype implB struct{ x int }\n\nfunc (*implB) M() {}\n\n")
@@ -233,9 +248,13 @@ func parseTrace(out string, nops int) [][]string {
 
 // behavModule writes the scratch module, runs mockery and the driver
 func (c *Ctx) behavModule(dir string, methods []BMethod, cfg string, driver string) (string, error) {
+	return c.behavModuleG(dir, methods, false, cfg, driver)
+}
+
+func (c *Ctx) behavModuleG(dir string, methods []BMethod, generic bool, cfg string, driver string) (string, error) {
 	files := map[string]string{
 		"go.mod":               goModText + "\nrequire github.com/stretchr/testify v1.10.0\n",
-		"store/store.go":       behavSource(methods),
+		"store/store.go":       behavSourceG(methods, generic),
 		"store/driver_test.go": driver,
 		".mockery.yml":         cfg,
 	}
